@@ -33,7 +33,7 @@ def make_bay(it):
 
 
 def skin(it, bay, name, y1, y2):
-    p = panelctx.new_panel(it, a=bay.attrs['a'], b=bay.attrs['b'], y1=y1, y2=y2, stack=[real('ths')], plyts=[real('tskin')],
+    p = panelctx.new_panel(it, a=bay.attrs['a'], b=bay.attrs['b'], y1=y1, y2=y2, stack=[real('ths')], plyts=[real('tskin_' + name)],
                            laminaprops=[tuple(real(x + 's') for x in MAT)], mu=real('mu'), m=bay.attrs['m'], n=bay.attrs['n'],
                            model='plate_clt_donnell_bardell')
     p.name = name
@@ -139,8 +139,8 @@ def check_tstiff2d(led):
                 probs += ['flange: ' + d for d in whole_domain(fk[1], bay.attrs['a'], bf)]
             # skin-base penalty (three blocks)
             y1, y2 = ys - bb * Fraction(1, 2), ys + bb * Fraction(1, 2)
-            tsk, tb = real('tskin'), real('tb')
-            dpb = (tsk * Fraction(1, 2) + tsk * Fraction(1, 2)) * Fraction(1, 2) + tb * Fraction(1, 2)
+            tsk1, tsk2, tb = real('tskin_skin1'), real('tskin_skin2'), real('tb')
+            dpb = (tsk1 * Fraction(1, 2) + tsk2 * Fraction(1, 2)) * Fraction(1, 2) + tb * Fraction(1, 2)
             for fn, place in (('fkCppy1y2', dict(row0=0, col0=0)), ('fkCpby1y2', dict(row0=0, col0=row0)), ('fkCbbpby1y2', dict(row0=row0, col0=row0))):
                 ts = byfn.get(fn, [])
                 if len(ts) != 1:
@@ -296,12 +296,12 @@ def _with_plies(it, nply_tag='f'):
     it.contracts['compmech.composite.laminate.read_stack'] = read_stack
 
 
-def check_bladestiff1d(led):
+def check_bladestiff1d(led, which=('k0', 'kG0', 'kM')):
     """BladeStiff1D: what it passes to the beam kernels fk0f / fkG0f / fkMf, the placement of the base panel, and the positive
     semi-definiteness of the weight matrices of the two energy functionals the kernels are proved to implement (c13_stiffk)."""
     import z3
     from .. import vc
-    for meth in ('__init__', '_rebuild', 'calc_k0', 'calc_kG0', 'calc_kM'):
+    for meth in ('__init__', '_rebuild') + tuple('calc_' + w for w in which):
         led.function(B1 + meth)
     led.bounded_item('BladeStiff1D: flange laminates of 1..3 plies, base of 1 ply (ply loop of _rebuild executed per count; everything else symbolic); '
                      'definiteness of the flange stiffness weights decided for 1 and 2 plies')
@@ -336,10 +336,10 @@ def check_bladestiff1d(led):
                 s.attrs['Fx'] = real('Fx')
                 size, row0 = integer('size'), integer('row0')
                 out = {}
-                for which in ('k0', 'kG0', 'kM'):
+                for wh in which:
                     del calls[:]
-                    it.call(it.getattr(s, 'calc_' + which), [], dict(size=size, row0=row0, col0=row0, silent=True, finalize=False))
-                    out[which] = s.attrs[which]
+                    it.call(it.getattr(s, 'calc_' + wh), [], dict(size=size, row0=row0, col0=row0, silent=True, finalize=False))
+                    out[wh] = s.attrs[wh]
                 holder.update(bay=bay, s=s, size=size, row0=row0, ys=ys, bb=bb, bf=bf, tf=tf)
                 return s, out
             for path, out in it.explore(run):
@@ -349,8 +349,8 @@ def check_bladestiff1d(led):
                     continue
                 s, mats = out[1]
                 bay, size, row0, ys, bb, bf, tf = (holder[k] for k in ('bay', 'size', 'row0', 'ys', 'bb', 'bf', 'tf'))
-                tsk = real('tskin')
-                h = (tsk * Fraction(1, 2) + tsk * Fraction(1, 2))
+                tsk1, tsk2 = real('tskin_skin1'), real('tskin_skin2')
+                h = (tsk1 * Fraction(1, 2) + tsk2 * Fraction(1, 2))
                 hb = real('tb') if with_base else P.const(0)
                 hf = sum(tf[1:], tf[0])
                 dbf = bf * Fraction(1, 2) + hb + h * Fraction(1, 2)
@@ -373,9 +373,11 @@ def check_bladestiff1d(led):
                     'kG0': ('fkG0f', dict(common, Fx=real('Fx'), **{f: v for f, v in flags.items() if f[0] == 'w'})),
                     'kM': ('fkMf', dict(common, mu=real('mu'), h=h, hb=hb, hf=hf, df=dbf, **flags)),
                 }
-                for which, (fn, args) in want.items():
+                for wh, (fn, args) in want.items():
+                    if wh not in which:
+                        continue
                     probs = []
-                    wrap, kern, scales = kernels_of(mats[which])
+                    wrap, kern, scales = kernels_of(mats[wh])
                     byfn = {}
                     for t in kern:
                         byfn.setdefault(t.f['fn'], []).append(t)
@@ -385,7 +387,7 @@ def check_bladestiff1d(led):
                     else:
                         probs += ['%s: %s' % (fn, d) for d in rational_arg_diffs(ts[0], args)]
                     others = [k for k in byfn if k != fn]
-                    exp_others = {'k0': ['fk0y1y2'], 'kM': ['fkMy1y2'], 'kG0': []}[which] if with_base else []
+                    exp_others = {'k0': ['fk0y1y2'], 'kM': ['fkMy1y2'], 'kG0': []}[wh] if with_base else []
                     if sorted(others) != sorted(exp_others):
                         probs.append('other contributions %s, expected %s' % (sorted(others), exp_others))
                     for o in others:
@@ -398,7 +400,7 @@ def check_bladestiff1d(led):
                                 probs.append('base %s: %s = %s' % (o, key, pycheck.describe(pv[key])))
                     if any(k != 1 for k in scales):
                         probs.append('a contribution is scaled')
-                    report(led, '%s[%s]' % (B1 + 'calc_' + which, tag), B1 + 'calc_' + which, probs)
+                    report(led, '%s[%s]' % (B1 + 'calc_' + wh, tag), B1 + 'calc_' + wh, probs)
                 if with_base:
                     # the base laminate sits below the skin: offset -(h/2 + hb/2)
                     base = s.attrs['base']
@@ -421,10 +423,10 @@ def check_bladestiff1d(led):
                     led.ok(nm, B1 + 'calc_kM')
                 else:
                     led.fail(nm, B1 + 'calc_kM', {'I0*I2 - I1^2': normal(I0 * I2 - I1 * I1).text()}, signature='mass-psd')
-                if with_base or nply > 2:
+                if with_base or nply > 2 or 'k0' not in which:
                     continue
                 # requires: every ply stiffness is positive definite, thicknesses positive
-                facts = [to_z3(bf) > 0, to_z3(tsk) > 0]
+                facts = [to_z3(bf) > 0, to_z3(tsk1) > 0, to_z3(tsk2) > 0]
                 for k in range(nply):
                     q = lambda i, j, k=k: to_z3(real('QL%d%d_f%d' % (min(i, j), max(i, j), k)))
                     facts += [to_z3(tf[k]) > 0, q(1, 1) > 0, q(2, 2) > 0, q(3, 3) > 0, q(1, 1) * q(2, 2) > q(1, 2) * q(1, 2),
@@ -600,8 +602,8 @@ def check_bladestiff2d(led):
                 report(led, '%s[%s]' % (BF2 + 'calc_' + which, tag), BF2 + 'calc_' + which, probs)
             probs = []
             if with_base:
-                tsk, tb = real('tskin'), real('tb')
-                h = tsk * Fraction(1, 2) + tsk * Fraction(1, 2)
+                tsk1, tsk2, tb = real('tskin_skin1'), real('tskin_skin2'), real('tb')
+                h = tsk1 * Fraction(1, 2) + tsk2 * Fraction(1, 2)
                 if not peq(base.attrs.get('offset'), -(h * Fraction(1, 2) + tb * Fraction(1, 2))):
                     probs.append('base offset %s, expected -(h/2 + hb/2)' % pycheck.describe(base.attrs.get('offset')))
                 for f in FLAG_NAMES:
